@@ -114,6 +114,39 @@ func (c *Ctx) extractTrace(fn *ssa.Function, depth int) *fsTrace {
 	return t
 }
 
+// sameObj: o is tp or a local bound exactly once to (an alias of) tp — `transcript := transcript` in a spliced helper body.
+func sameObj(info *types.Info, fd *ast.FuncDecl, o, tp types.Object) bool {
+	for i := 0; i < 8 && o != nil; i++ {
+		if o == tp {
+			return true
+		}
+		id, ok := ast.Unparen(singleDefOrNil(info, fd, o)).(*ast.Ident)
+		if !ok {
+			return false
+		}
+		o = info.Uses[id]
+	}
+	return false
+}
+
+func singleDefOrNil(info *types.Info, fd *ast.FuncDecl, o types.Object) ast.Expr {
+	if e := singleDef(info, fd, o); e != nil {
+		return e
+	}
+	return &ast.BadExpr{}
+}
+
+func (c *Ctx) usesTP(info *types.Info, fd *ast.FuncDecl, n ast.Node, tp types.Object) bool {
+	found := false
+	ast.Inspect(n, func(x ast.Node) bool {
+		if id, ok := x.(*ast.Ident); ok && info.Uses[id] != nil && sameObj(info, fd, info.Uses[id], tp) {
+			found = true
+		}
+		return !found
+	})
+	return found
+}
+
 func (c *Ctx) usesObj(info *types.Info, n ast.Node, o types.Object) bool {
 	found := false
 	ast.Inspect(n, func(x ast.Node) bool {
@@ -155,7 +188,16 @@ func (c *Ctx) traceStmt(t *fsTrace, info *types.Info, fd *ast.FuncDecl, tp types
 	switch x := s.(type) {
 	case *ast.BlockStmt:
 		c.traceBlock(t, info, fd, tp, x.List, depth)
+	case *ast.LabeledStmt:
+		c.traceStmt(t, info, fd, tp, x.Stmt, depth)
 	case *ast.ForStmt:
+		// the one-trip labelled scope the normaliser splices a helper into: `for { ...; break L }` is a block
+		if x.Init == nil && x.Cond == nil && x.Post == nil && len(x.Body.List) > 0 {
+			if br, isBr := x.Body.List[len(x.Body.List)-1].(*ast.BranchStmt); isBr && br.Tok == token.BREAK && br.Label != nil && strings.HasPrefix(br.Label.Name, "_inl") {
+				c.traceBlock(t, info, fd, tp, x.Body.List, depth)
+				return
+			}
+		}
 		if x.Init != nil {
 			c.traceExprs(t, info, fd, tp, x.Init, depth)
 		}
@@ -204,8 +246,6 @@ func (c *Ctx) traceStmt(t *fsTrace, info *types.Info, fd *ast.FuncDecl, tp types
 			t.items = append(t.items, "Async(", strings.Join(sub.items, " "), ")")
 			t.bad = append(t.bad, fmt.Sprintf("transcript events in go/defer at %s", c.P.Pos(s.Pos())))
 		}
-	case *ast.LabeledStmt:
-		c.traceStmt(t, info, fd, tp, x.Stmt, depth)
 	default:
 		c.traceExprs(t, info, fd, tp, s, depth)
 	}
@@ -218,7 +258,7 @@ func (c *Ctx) traceExprs(t *fsTrace, info *types.Info, fd *ast.FuncDecl, tp type
 		ast.Inspect(n, func(x ast.Node) bool {
 			switch e := x.(type) {
 			case *ast.FuncLit:
-				if c.usesObj(info, e, tp) {
+				if c.usesTP(info, fd, e, tp) {
 					t.bad = append(t.bad, fmt.Sprintf("transcript captured by a function literal at %s", c.P.Pos(e.Pos())))
 				}
 				return false
@@ -244,7 +284,7 @@ func (c *Ctx) traceCall(t *fsTrace, info *types.Info, fd *ast.FuncDecl, tp types
 	fobj, _ := callee.(*types.Func)
 	// method of *Transcript on our transcript
 	if sel, ok := call.Fun.(*ast.SelectorExpr); ok && fobj != nil {
-		if id, ok := ast.Unparen(sel.X).(*ast.Ident); ok && info.Uses[id] == tp {
+		if id, ok := ast.Unparen(sel.X).(*ast.Ident); ok && sameObj(info, fd, info.Uses[id], tp) {
 			kind, isEv := transcriptEvents[fobj.Name()]
 			if !isEv {
 				t.bad = append(t.bad, fmt.Sprintf("unknown transcript method %s at %s", fobj.Name(), c.P.Pos(call.Pos())))
@@ -265,12 +305,25 @@ func (c *Ctx) traceCall(t *fsTrace, info *types.Info, fd *ast.FuncDecl, tp types
 	// transcript passed on
 	passes := false
 	for _, a := range call.Args {
-		if id, ok := ast.Unparen(a).(*ast.Ident); ok && info.Uses[id] == tp {
+		if id, ok := ast.Unparen(a).(*ast.Ident); ok && sameObj(info, fd, info.Uses[id], tp) {
 			passes = true
 		}
 	}
 	if !passes {
-		if c.usesObj(info, call, tp) {
+		// nested calls were traced on their own (arguments are visited first): only this call's own operands count
+		direct := false
+		for _, a := range append([]ast.Expr{call.Fun}, call.Args...) {
+			ast.Inspect(a, func(x ast.Node) bool {
+				if _, isCall := x.(*ast.CallExpr); isCall {
+					return false
+				}
+				if id, ok := x.(*ast.Ident); ok && info.Uses[id] != nil && sameObj(info, fd, info.Uses[id], tp) {
+					direct = true
+				}
+				return !direct
+			})
+		}
+		if direct {
 			t.bad = append(t.bad, fmt.Sprintf("transcript used in an unrecognised way at %s", c.P.Pos(call.Pos())))
 		}
 		return
